@@ -20,7 +20,7 @@ for p in sorted(glob.glob(os.path.join(V, "checks", "C*.json"))):
         "level_claimed": {
             "category": "model_checking",
             "text": c.get("level_text", "Bounded symbolic execution of the named real functions (go/ssa lowered to SMT-LIB2, decided by z3): every assertion holds for all values of the symbolic inputs on every explored path within the bounds listed in the evidence; nothing is claimed outside them. Counterexamples are replayed natively against the real build before being reported."),
-            "design_ref": "DESIGN.md §3 " + pid,
+            "design_ref": "DESIGN.md §A.3 " + pid + " (plan: §3 " + pid + ")",
         },
         "level_note": c.get("level_note", "Trusted: go/ssa lowering (x/tools v0.29.0), the gse interpreter (validated by native replay), z3 5.1.0 (fallback: z3 4.8.12, cvc5). Stubs and assumptions: " + "; ".join(c.get("stubs", []) + c.get("assumptions", [])) + ". Outside the claim: " + "; ".join(c.get("outside_claim", []))),
         "technique": c.get("technique", "bounded symbolic execution of the real Go code (go/ssa -> SMT-LIB2), z3 decides every path condition and assertion; native replay of models"),
